@@ -1,5 +1,9 @@
 #![allow(static_mut_refs)]
 #![allow(dead_code)]
+mod compx;
+mod crashx;
+mod props_comp;
+mod props_crash;
 mod props_sched;
 mod props_seq;
 mod report;
@@ -140,12 +144,15 @@ fn main() {
 fn dispatch(id: &str, tier: &str) {
     match id {
         "C01" => props_seq::c01(tier),
+        "C02" => props_crash::c02(tier),
         "C03" => props_seq::c03(tier),
         "C05" => props_sched::c05(tier),
         "C06" => props_sched::c06(tier),
         "C07" => props_seq::c07(tier),
         "C09" => props_seq::c09(tier),
         "C10" => props_seq::c10(tier),
+        "C12" => props_comp::c12(tier),
+        "C16" => props_crash::c16(tier),
         "C11" => props_seq::c11(tier),
         _ => usage(),
     }
